@@ -82,6 +82,30 @@ def basic_checks(chk, rng, c, found, history_pool):
                  f"a history of other matrices differs from a fresh instance)",
                  {"fresh": out.tolist(), "after_history": out2 if isinstance(out2, str) else out2.tolist()})
             continue
+        # ... and from what THE SAME TENSOR OBJECT held at earlier calls: a pre-allocated Jacobian buffer that is
+        # refilled in place (copy_) between calls, first with other contents of the same shape
+        agg3 = A.make_aggregator(name, p, dt)
+        buf = A.to_tensor([list(reversed(r)) for r in reversed(J)], dt)
+        try:
+            for filler in (None, t * 2.0 + 1.0):
+                if filler is not None:
+                    buf.copy_(filler)
+                torch.manual_seed(99)
+                try:
+                    agg3(buf)
+                except Exception:  # noqa: BLE001
+                    pass
+            buf.copy_(t)
+            torch.manual_seed(3)
+            out5 = agg3(buf)
+            same = torch.equal(out, out5)
+        except Exception as e:  # noqa: BLE001
+            same, out5 = False, type(e).__name__
+        if not same:
+            viol(chk, found, c, dt, f"{name}: the result depends on what the same tensor object held at earlier calls "
+                 f"(a buffer refilled in place differs from a fresh tensor with the same content)",
+                 {"fresh": out.tolist(), "refilled_buffer": out5 if isinstance(out5, str) else out5.tolist()})
+            continue
         if name in RANDOMISED:
             torch.manual_seed(3)
             out3 = A.make_aggregator(name, p, dt)(t)
